@@ -122,4 +122,38 @@ PROPS["C14"] = {
     "explanation": "reversal and complement proved; streaming law by lemma over contracts; bounded bytes",
 }
 
+PROPS["C20"] = {
+    "level": "other",
+    "technique": "obligations generated from the AST of name_natural_key (pattern and numeral table read from the literals, turned into SMT regular-expression queries), shape contracts for the two sort functions; bounded exhaustive ordering oracle",
+    "level_text": "Proved for every possible name: each token the split pattern can yield has a value (it is one of the numerals with a non-zero table value, or a non-empty run of decimal digits on which int() succeeds), so the key function never raises; the pattern has exactly one capturing group, so keys are positionally typed (text at even, int at odd positions) and tuple comparison is total; I/II/III/IV map to 1..4; every run of digits is one token; the output order key is (rank, natural key), so rank takes precedence. Bounded: that the resulting order is numeric-aware in the sense of the statement for whole names (tokenising oracle over all short names) and that an unloc sorts directly after its chromosome.",
+    "level_note": "Trusted: re.split with one capturing group alternates text and group matches; sorted/list.sort are stable total-preorder sorts; Python's \\d is read as [0-9] (int() also accepts the other Unicode decimal digits \\d matches). smart_sort_scaffolds needs every rank to be an int (input validity).",
+    "lemmas": [],
+    "bounded": [("bounded.c20", {})],
+    "trusted": PREDICATE_TRUSTED + ["translation of the re pattern literal to an SMT regular expression via re._parser (ASCII classes)", "re.split / sorted / tuple comparison builtin semantics"],
+    "assumptions": ["scaffold ranks are ints when smart_sort_scaffolds is called"],
+    "explanation": "totality, typing and rank precedence proved from the literals in the source; order semantics bounded",
+}
+PROPS["C16"] = {
+    "level": "other",
+    "technique": "obligations generated from the AST of get_output_filehandle / setup_logging (open mode evaluated for every (clobber, mode) combination, exception path, module-wide frame of file-affecting calls) over a stated file model; bounded CLI runs over subsets of pre-existing files",
+    "level_text": "Decided completely over the finite space (clobber, binary flag): with clobber false every output file is opened in exclusive-create mode ('x', never truncating), the FileExistsError of a collision reaches a handler that exits with status 1 after naming the path and is not swallowed; with clobber true the mode is 'w' (complete rewrite); the log file mode follows the same rule; every caller passes its clobber flag through unchanged and no other function of the module performs a file-affecting call. Under the stated model of open() this is the property. The real runs over subsets of existing files are bounded.",
+    "level_note": "File model (trusted): open(p,'x') raises FileExistsError and leaves p untouched if it exists; open(p,'w') creates or truncates. The FASTA index cache beside an input FASTA is not an output file of the run (scope note in DESIGN.md).",
+    "lemmas": [],
+    "bounded": [("bounded.c16", {})],
+    "trusted": ["semantics of open modes 'x' and 'w', of logging.basicConfig(filename, filemode) and of sys.exit", "click passes --clobber/--no-clobber as the `clobber` argument of cli()"],
+    "assumptions": [],
+    "explanation": "mode logic decided over its finite input space from the AST; CLI behaviour bounded",
+}
+PROPS["C15"] = {
+    "level": "other",
+    "technique": "deductive verification of check_for_index_files over a ghost path model (existence, mtime), AST-level obligations for the atomic cache writer replace_file and its two users, invariant lemma over these contracts for histories / crash points / interference; bounded histories, crash injection and interleavings on the real code",
+    "level_text": "Proved: check_for_index_files returns true iff both cache files exist and both mtimes are strictly greater than the FASTA's (all paths, incl. FileNotFoundError for a missing FASTA); replace_file writes to a process-unique temporary name in the same directory and renames it onto the final name only after the file is closed; write_index and write_assembly write only through it; auto_load loads when accepted and otherwise runs run_indexing, which derives both caches from the current file and writes both. Lemma over these contracts: the per-file invariant 'exists and strictly newer => complete and current' is preserved by FASTA rewrites (monotone clock), deletions and atomic cache writes of any process, hence holds at every crash point and under interference, and an accepted cache is the current one.",
+    "level_note": "Trusted: file-system semantics (rename is atomic, completed operations persist, mtime of a new file is the clock at creation, monotone clock). load_index / load_assembly / index_fasta_file are covered by C04/C05 and the bounded tier. Real scheduling and power-loss reordering are out of reach.",
+    "lemmas": ["c15_cache_invariant"],
+    "bounded": [("bounded.c15", {})],
+    "trusted": PREDICATE_TRUSTED + ["POSIX rename atomicity; Path.stat().st_mtime / Path.exists() read the ghost path model", "monotone clock: a rewritten FASTA gets an mtime not earlier than any existing cache file"],
+    "assumptions": ["the FASTA is not rewritten while an indexing run of its old content is still writing caches (histories are sequential with respect to FASTA edits, as in the property's quantifier)"],
+    "explanation": "acceptance test and atomic writer proved; invariant lemma over contracts; real crash points and interleavings bounded",
+}
+
 NOT_APPLICABLE = {}
